@@ -72,7 +72,7 @@ def gen(ctx):
             else:
                 t = ctx.rng.choice([a for a in ALPHABET if not a[:1].isspace()])
                 r = ctx.rng.random()
-                if r < 0.1:
+                if r < 0.15:
                     steps.append(["join", "/" + G.rfc6901_escape(t)])
                 elif r < 0.2:
                     steps.append(["join", G.rfc6901_escape(t) + "/" + G.rfc6901_escape(ctx.rng.choice(ALPHABET))])
@@ -191,6 +191,23 @@ def evaluate(ctx, cases):
                 ctx.mismatch("ptr.nav", c, impl, {"parts": m["parts"], "str": m["str"]})
             if k == "join" and "ok" in o:
                 _join_laws(ctx, c, s, o["ok"])
+            if k == "chain":
+                # the multi-part join() method: consecutive joins grouped into one call must equal the slash chain
+                def run_grouped():
+                    p, group = JSONPointer(s), []
+                    for st in c["steps"]:
+                        if st == "parent":
+                            if group:
+                                p, group = p.join(*group), []
+                            p = p.parent()
+                        else:
+                            group.append(st[1])
+                    return p.join(*group) if group else p
+                og = core.outcome(run_grouped)
+                a = {"ok": [str(x) for x in o["ok"].parts]} if "ok" in o else {"err": o["err"]}
+                b = {"ok": [str(x) for x in og["ok"].parts]} if "ok" in og else {"err": og["err"]}
+                if a != b:
+                    ctx.violation("join(t1, ..., tn) must equal the chain p / t1 / ... / tn", c, b, a)
             if k == "chain" and "ok" in o:
                 # spec on token lists
                 cur = list(toks)
